@@ -46,3 +46,24 @@ Example not_wire_valid_is_altered :
   event_bytes (mkWEvent None None s_PONG [[97; 13; 98]]) = bs "PONG ab" /\
   event_bytes (mkWEvent None None s_PONG [[97; 255]]) = bs "PONG a".
 Proof. vm_compute. split; reflexivity. Qed.
+
+(* ---- NICK: the requested nickname reaches the peer byte for byte ------------------- *)
+
+Lemma nick_wf : forall name, wire_valid name = true -> wf_event (mkWEvent None None s_NICK [name]).
+Proof.
+  intros name H. unfold wire_valid in H. unfold wf_event, wf_eventb.
+  cbn [we_cmd we_params we_src we_tags wf_params wf_wtags].
+  rewrite H. reflexivity.
+Qed.
+
+Lemma nick_wire_verbatim : forall st name,
+  commands_nick st name = cmd_nick name /\
+  (wire_valid name = true ->
+   parse_event (event_bytes (wevent_of (commands_nick st name))) =
+     Ok (Some (mkWEvent None None s_NICK [name]))).
+Proof.
+  intros st name. split; [reflexivity|]. intro H.
+  unfold wevent_of. cbn [commands_nick o_cmd o_params].
+  rewrite (encode_parse_notags _ (nick_wf name H) eq_refl). reflexivity.
+Qed.
+
